@@ -41,11 +41,11 @@ func c57(c *Ctx) {
 		var prev ssa.Value = fn.Params[0]
 		for _, in := range calls {
 			call := in.(*ssa.Call)
-			if call.Call.Args[0] != prev {
+			if BaselineArgs(&call.Call)[0] != prev {
 				chain = false
 			}
-			o, ok1 := ConstStr(call.Call.Args[1])
-			n, ok2 := ConstStr(call.Call.Args[2])
+			o, ok1 := ConstStr(BaselineArgs(&call.Call)[1])
+			n, ok2 := ConstStr(BaselineArgs(&call.Call)[2])
 			if !ok1 || !ok2 {
 				chain = false
 			}
@@ -122,8 +122,8 @@ func c57(c *Ctx) {
 		detail := ""
 		if len(fp) == 1 {
 			call := fp[0].(*ssa.Call)
-			okDst = IsCallTo("crypto/hmac.New")(StripConv(call.Call.Args[0]))
-			if f, ok := ConstStr(call.Call.Args[1]); ok {
+			okDst = IsCallTo("crypto/hmac.New")(StripConv(BaselineArgs(&call.Call)[0]))
+			if f, ok := ConstStr(BaselineArgs(&call.Call)[1]); ok {
 				okFmt = sep != "" && f == "%s"+sep+"%s"+sep+"%d"
 				detail = f
 			}
@@ -156,7 +156,7 @@ func c57(c *Ctx) {
 		tdetail := ""
 		if len(sp) == 1 {
 			call := sp[0].(*ssa.Call)
-			f, _ := ConstStr(call.Call.Args[0])
+			f, _ := ConstStr(BaselineArgs(&call.Call)[0])
 			if es, ok := CallVarArgs(call); ok && len(es) == 2 {
 				tdetail = f + " " + Term(es[0]) + " " + Term(es[1])
 				okTok = sep != "" && f == "%s"+sep+"%d" && es[1] == milli && DependsOn(es[0], IsCallTo(".Sum"))
@@ -181,7 +181,7 @@ func c57(c *Ctx) {
 	c.Has(val, Calls(gen).ArgIs(0, "$1").ArgIs(1, "$2").ArgIs(2, "$3").ArgIs(3, issue))
 	expected := "generateTokenAtTime($1,$2,$3," + issue + ")"
 	c.Has(val, cmp.Where("of the whole presented token and the regenerated one", func(in ssa.Instruction) bool {
-		a, b := Term(in.(*ssa.Call).Call.Args[0]), Term(in.(*ssa.Call).Call.Args[1])
+		a, b := Term(BaselineArgs(&in.(*ssa.Call).Call)[0]), Term(BaselineArgs(&in.(*ssa.Call).Call)[1])
 		return a == "$0" && b == expected || b == "$0" && a == expected
 	}))
 	if fn := c.MustFn(val); fn != nil {
